@@ -22,6 +22,12 @@ func init() {
 
 func runC08(p *eng.Prog, r *eng.Report, tier string) {
 	c := &cx{p, r, tier}
+	// C08.21 (= C09.17 / C10.10): no cycle in the lock-order graph: a deadlock between a
+	// writer and Close, or between the serve loop and a requester, ends every guarantee of this property
+	lockOrder(c, "C08.21")
+	// C08.22 (= C04.4 / C10.16): the watcher of a transmit call expires the WRITE deadline only: a
+	// cancelled Send must not make the serve loop's blocked read fail (later elements would never be handled)
+	c04DeadlineAs(c, "C08.22")
 	c08Handle(c)
 	c08Reader(c)
 	// C08.10 a received stream error is returned as such: its decoder consumes
